@@ -14,8 +14,11 @@ def collect_claims():
     sys.path.insert(0, os.path.join(VERIF, "tools"))
     res = {}
     d = os.path.join(VERIF, "tools", "families")
+    # only families the lead has reviewed and run are claimed (tools/approved_families.txt)
+    with open(os.path.join(VERIF, "tools", "approved_families.txt")) as fh:
+        approved = set(fh.read().split())
     for f in sorted(os.listdir(d)):
-        if f.endswith(".py") and not f.startswith("_"):
+        if f.endswith(".py") and not f.startswith("_") and f[:-3] in approved:
             mod = importlib.import_module("families." + f[:-3])
             for pid, c in getattr(mod, "CLAIMS", {}).items():
                 res[pid] = c
